@@ -213,7 +213,30 @@ def build_chart(spec):
         setattr(m, k, v)
     for k, v in (spec.get("meta") or {}).items():
         setattr(m, k, copy.deepcopy(v))
+    for step in spec.get("pre") or []:
+        m = _pre_step(m, step)
     return m
+
+
+def _pre_step(m, step):
+    """dtype / history states the library itself produces, applied to a built chart (spec key `pre`):
+    ["rate", r]            the chart returned by the public rate(r)
+    ["append", list name]  the named list replaced by  list.append(copy of its first item)  (one more row)
+    ["stack_edit"]         offset += 0 through a stack of the whole chart (a stack edit that changes no value)
+    ["deepcopy"]           a deep copy"""
+    if step[0] == "rate":
+        return m.rate(step[1])
+    if step[0] == "append":
+        lst = getattr(m, step[1])
+        setattr(m, step[1], lst.append(lst[0]))
+        return m
+    if step[0] == "stack_edit":
+        st = m.stack()
+        st.offset += 0
+        return m
+    if step[0] == "deepcopy":
+        return copy.deepcopy(m)
+    raise ValueError(step)
 
 
 def build_mapset(spec):
@@ -469,7 +492,11 @@ class _Model:
                 cols=[str(c) for c in lst.df.columns],
                 data={str(c): [x.item() if isinstance(x, np.generic) else x for x in lst.df[c].tolist()] for c in lst.df.columns},
                 n=len(lst.df),
+                dtypes={str(c): str(t) for c, t in zip(lst.df.columns, lst.df.dtypes)},
+                index_dtype=str(lst.df.index.dtype),
             )
+        self.written = None  # set by _run_ops: names of the lists that were in the stack when an assignment went through it
+        self.touched_cols = set()  # (list, col) assigned by ANY op so far
         self.order = [n for n in m.objs.keys()]
         self.include = None  # None = all stacked lists, else set of kind names
         self.touched = set()  # (list, col, row) assigned by the LAST op
@@ -532,6 +559,7 @@ class _Model:
             if col in l["data"]:
                 l["data"][col] = [self._apply(x, how, v) for x in l["data"][col]]
                 self.touched |= {(n, col, i) for i in range(l["n"])}
+                self.touched_cols.add((n, col))
 
     def loc(self, how, flat, cols, v):
         """flat: one bool per row of the included lists (list order, then row order) - the mask handed to the library"""
@@ -547,6 +575,7 @@ class _Model:
                         if b:
                             l["data"][col][i] = self._apply(l["data"][col][i], how, v)
                             self.touched.add((n, col, i))
+                            self.touched_cols.add((n, col))
 
 
 def _eqv(a, b):
@@ -605,6 +634,16 @@ def _compare(m, model, fields0, stale=False):
                         what = "other_values_untouched"
                     out.append((w(what), f"{name}.{col}[row {i}] is {g!r}, the per-list assignment gives {x!r}"))
                     break
+    if model.written is not None and not out:
+        # dimension 15: a list that was in no stack through which an assignment went (lists excluded by the type restriction,
+        # file-level lists such as osu samples) keeps the dtype of every column: re-typing a column IS a modification
+        for name, l in model.lists.items():
+            if name in model.written:
+                continue
+            now = {str(c): str(t) for c, t in zip(real[name].df.columns, real[name].df.dtypes)}
+            ch = [f"{c}: {l['dtypes'][c]} -> {now[c]}" for c in l["cols"] if now.get(c) != l["dtypes"][c]]
+            if ch:
+                out.append((w("lacking_list_dtypes"), f"{name} was in no stack that was assigned through, its column types changed: {'; '.join(ch[:4])}"))
     f1 = _fields_of(m)
     d = diff(fields0, f1)
     if d:
@@ -749,6 +788,7 @@ def _missing_prop(s, model, op):
 def _run_ops(m, ops, check_from=0, s=None):
     """the ops of a chart case on the chart m (through the stacker s, default a new m.stack()); returns [(what, detail)]"""
     model = _Model(m)
+    model.written = set()
     fields0 = _fields_of(m)
     if s is None:
         s = m.stack()
@@ -777,6 +817,7 @@ def _run_ops(m, ops, check_from=0, s=None):
                 return out
             if r == "skip":
                 continue
+            model.written |= set(model.included())
         if k >= check_from:
             bad = _compare(m, model, fields0)
             if bad:
@@ -970,6 +1011,12 @@ def _c12_more_specs(game):
                                             mines=[(750, 1), (750, 2)], rolls=[(800, 0, 0)], keysounds=[(900, 1)],
                                             labels=dict(stops="perm", mines="rev", rolls="gappy", fakes="after", lifts="mask", keysounds="gappy")), 11))
     out.append(("one_row", std_spec(game, hits=[(500, 1)], holds=[], bpms=[]), 1))
+    # dimension 15: the dtype states the library itself leaves a chart in (rate() and a stack edit re-type the integer / bool
+    # columns of the lists they go through; append of an item builds a new frame)
+    base = dict(hits=[(0, 0), (500, 1)], holds=[(1000, 1, 250)], bpms=[(0, 120)])
+    out.append(("after_rate", std_spec(game, pre=[["rate", 1.0]], **base), 4))
+    out.append(("after_append", std_spec(game, pre=[["append", "hits"]], hits=[(500, 1)], holds=[(1000, 1, 250)], bpms=[(0, 120)]), 4))
+    out.append(("after_stack_edit", std_spec(game, pre=[["stack_edit"]], **base), 4))
     return out
 
 
@@ -1050,7 +1097,7 @@ def _c12_game(rep, game):
             run(spec, list(p3))
     # phase C: all sequences of length 2 over the reduced alphabet on every small chart
     for label, spec, nrows in specs:
-        if nrows > 4 or (quick and label in ("gappy", "empty_holds", "all_empty", "int_columns", "one_row", "sv_only")):
+        if nrows > 4 or (quick and label in ("gappy", "empty_holds", "all_empty", "int_columns", "one_row", "sv_only", "after_append", "after_stack_edit")):
             continue
         red = _alphabet(game, nrows, False)
         for p2 in itertools.product(red, repeat=2):
@@ -1488,5 +1535,82 @@ def restack_after_direct_change(rep):
 @replayer("restack_after_direct_change")
 def _replay_fresh(case, what):
     bad = _run_stale_case(case, stale=False)
+    hit = [d for w, d in bad if w == what]
+    return (bool(hit), hit[0] if hit else "passes")
+
+
+# ---------------------------------------------------------------------------------------------------------------- dimension 15: column types
+_DTYPE_OPS = [["iadd", "offset", 5], ["loc", "set", {"cond": ["offset", ">", 400.0]}, "offset", 777.0], ["set", "bpm", 90.5], ["imul", "length", 2], ["self", "offset"],
+              ["loc", "iadd", {"cond": ["column", "==", 1]}, ["offset", "length"], 2.0]]
+_DTYPE_CHARTS = ("small", "larger", "int_columns", "with_sv", "sm_all_lists", "empty_holds", "after_rate", "after_append", "after_stack_edit")
+
+
+def _dtypes_of(m):
+    return {name: {str(c): str(t) for c, t in zip(lst.df.columns, lst.df.dtypes)} for name, lst in chart_lists(m).items()}
+
+
+def _run_dtype_case(case):
+    """case: dict(spec=, include=None | [kinds], op=) -> [(what, detail)].  `changes nothing else ... other columns and lists that
+    lack the property are untouched`: after ONE assignment through a (possibly type-restricted) stack every column that the
+    per-list assignment does not assign keeps its dtype - in the lists of the stack (`untouched_column_dtype.<from>_to_<to>`, one
+    clause per kind of re-typing) and in the lists outside it (`lacking_list_dtypes`)."""
+    m = _fresh(case["spec"])
+    model = _Model(m)
+    model.include = case.get("include")
+    before = _dtypes_of(m)
+    try:
+        s = _do_stack(m, model.include)
+        r = _apply_real(s, model, case["op"])
+    except Exception as ex:
+        return [("stack_op_raises", f"{case['op']}: {type(ex).__name__}: {ex}")]
+    if r == "skip":
+        return None
+    after = _dtypes_of(m)
+    inc = set(model.included())
+    out, seen = [], set()
+    for name, cols in before.items():
+        for c, t0 in cols.items():
+            t1 = after.get(name, {}).get(c)
+            if t1 is None or t1 == t0 or (name, c) in model.touched_cols:
+                continue
+            what = f"untouched_column_dtype.{t0}_to_{t1}" if name in inc else "lacking_list_dtypes"
+            if what not in seen:
+                seen.add(what)
+                out.append((what, f"{case['op']} through stack({case.get('include')}): {name}.{c} ({len(chart_lists(m)[name])} rows) is not assigned by the per-list assignment, its type changed {t0} -> {t1}"))
+    return out
+
+
+@bounded("C12", note="dimension 15: one assignment through a stack leaves the TYPE of every column it does not assign as it was (lists in the stack and outside it), on charts in every dtype state the library produces (fresh, integer-typed, after rate(), after append of an item, after an earlier stack edit)")
+def stack_edit_keeps_untouched_dtypes(rep):
+    n = 0
+    for game in GAMES:
+        specs = {label: spec for label, spec, _ in _c12_specs(game)}
+        incs = [None, ["HitList"], ["BpmList"], ["NoteList"], ["list:holds"]]
+        for label in _DTYPE_CHARTS:
+            if label not in specs:
+                continue
+            for inc in incs:
+                for op in _DTYPE_OPS:
+                    if rep.out_of_time(20, 120):
+                        break
+                    case = dict(spec=specs[label], op=op)
+                    if inc is not None:
+                        case["include"] = inc
+                    bad = _run_dtype_case(case)
+                    if bad is None:
+                        continue
+                    n += 1
+                    rep.case(case, nontrivial=True)
+                    for what, d in bad:
+                        rep.fail(what, case, d)
+    rep.bound = (f"5 games x up to {len(_DTYPE_CHARTS)} charts {_DTYPE_CHARTS} (fresh int64 / bool columns, integer-typed offsets, after rate(1), after append of an item, "
+                 f"after a value-preserving stack edit) x 5 stacks (whole chart, HitList, BpmList, NoteList, the exact hold list class) x {len(_DTYPE_OPS)} assignments (whole column += / = / *= / self, "
+                 f"conditional on one and two columns): {n} applicable cases")
+    rep.rule = "a case is (chart, stack restriction, one assignment); every (list, column) the per-list assignment does not assign must keep its dtype"
+
+
+@replayer("stack_edit_keeps_untouched_dtypes")
+def _replay_dtype(case, what):
+    bad = _run_dtype_case(case) or []
     hit = [d for w, d in bad if w == what]
     return (bool(hit), hit[0] if hit else "passes")
